@@ -98,6 +98,7 @@ def run_one(check_id, scn, order, hist, ev):
     """Execute hist then ev on a fresh world under the oracle; returns
     (outcome, digest, problems, nontrivial)."""
     oracle = ORACLES[check_id]()
+    oracle.scn, oracle.order, oracle.hist = scn, order, hist
     w = build(scn, order, hist, oracle)
     table = ops.build_ops()
     problems = []
@@ -110,16 +111,22 @@ def run_one(check_id, scn, order, hist, ev):
         token = oracle.pre(w, ev)
         outcome = apply_event(w, table, ev)
         sp = oracle.state(w)
+        stepres = oracle.step(w, ev, outcome, token)  # may rebuild the pre-state: w is stale afterwards
+        nontriv = bool(oracle.nontrivial(w, ev, outcome))
+        dig = core.digest(snapshot(w)) if not getattr(oracle, "stale", False) else oracle.digest
         if sp:
-            # report only what this transition introduced
+            # report only what this transition introduced (only one world is indexed at a time,
+            # so this comes last)
             oracle2 = ORACLES[check_id]()
+            oracle2.scn, oracle2.order, oracle2.hist = scn, order, hist
             w0 = build(scn, order, hist, oracle2)
             before = set(c for c, _ in oracle2.state(w0))
             oracle2.end(w0)
             sp = [p for p in sp if p[0] not in before]
         problems += sp
-        problems += oracle.step(w, ev, outcome, token)
-        nontriv = bool(oracle.nontrivial(w, ev, outcome))
+        problems += stepres
+        oracle.end(w)
+        return outcome, dig, problems, nontriv
     dig = core.digest(snapshot(w))
     oracle.end(w)
     return outcome, dig, problems, nontriv
@@ -138,7 +145,8 @@ def _expand(task):
     return recs
 
 
-def explore(check_id, scn, tier, cov, found, deadline=None, orders=core.ORDER_VARIANTS, depth=None):
+def explore(check_id, scn, tier, cov, found, deadline=None, orders=core.ORDER_VARIANTS, depth=None,
+            count="states"):
     """Breadth-first search of one scenario under each order variant.  Updates cov (Coverage) and
     found: signature -> dict(count, what, case)."""
     depth = depth or scn.depth[tier]
@@ -153,6 +161,7 @@ def explore(check_id, scn, tier, cov, found, deadline=None, orders=core.ORDER_VA
         states = 1
         trans = 0
         nontriv_states = 0
+        nontriv_trans = 0
         capped = False
         for level in range(1, depth + 1):
             tasks = [(check_id, scn.name, order, h) for h in frontier]
@@ -161,6 +170,8 @@ def explore(check_id, scn, tier, cov, found, deadline=None, orders=core.ORDER_VA
                 for ev, outcome, dig, problems, nontriv in recs:
                     trans += 1
                     outcomes.add((ev[0], outcome))
+                    if nontriv:
+                        nontriv_trans += 1
                     if problems:
                         _record(check_id, scn, order, h, ev, problems, found)
                     if dig not in seen:
@@ -185,7 +196,8 @@ def explore(check_id, scn, tier, cov, found, deadline=None, orders=core.ORDER_VA
         cov.add("transitions", trans)
         cov.add("traces_validated_against_impl", trans)
         cov.add("evaluations", trans)
-        cov.add("distinct_nontrivial", nontriv_states)
+        cov.add("distinct_nontrivial", nontriv_trans if count == "transitions" else nontriv_states)
+        cov.add("nontrivial_transitions", nontriv_trans)
         cov["bounds_completed"]["%s/%s" % (scn.name, order)] = {
             "depth_requested": depth, "depth_completed": completed, "states": states,
             "transitions": trans, "wall_s": round(time.time() - t0, 2), "capped": capped,
